@@ -109,6 +109,45 @@ theorem seq_deq_gen (xs0 : List Val) : ∀ (s : Idx) (xs : List Val),
 theorem seq_deq (xs : List Val) : Deq (seqCo xs) ⟨0, xs.length⟩ xs :=
   seq_deq_gen xs ⟨0, xs.length⟩ xs ⟨[], [], by simp, rfl, by simp⟩
 
+/-- the host byte iterator is the same double-ended cursor (as repaired by /repo commit 0c6b903) -/
+theorem hostBytes_deq_gen (xs0 : List Val) : ∀ (s : Idx) (xs : List Val),
+    (∃ pre post, xs0 = pre ++ xs ++ post ∧ pre.length = s.idx ∧ s.stop = pre.length + xs.length) →
+    Deq (hostBytesCo xs0) s xs := by
+  apply deq_coind (hostBytesCo xs0)
+  intro (s : Idx) xs ⟨pre, post, e0, e1, e2⟩
+  constructor
+  · cases xs with
+    | nil =>
+      have hc : ¬ s.idx < s.stop := by simp at e2; omega
+      have e : (hostBytesCo xs0).next s = ⟨none, s, []⟩ := by simp [hostBytesCo, hc]
+      rw [e]
+      exact ⟨rfl, pre, post, e0, e1, e2⟩
+    | cons x xs =>
+      have hc : s.idx < s.stop := by simp at e2; omega
+      have hx : xs0[s.idx]? = some x := by
+        rw [e0, ← e1]; simp
+      have e : (hostBytesCo xs0).next s = ⟨some x, ⟨s.idx + 1, s.stop⟩, []⟩ := by simp [hostBytesCo, hc, hx]
+      rw [e]
+      exact ⟨rfl, pre ++ [x], post, by simp [e0], by simp [e1], by simp at e2 ⊢; omega⟩
+  · rcases nil_or_snoc xs with rfl | ⟨ini, l, rfl⟩
+    · have hc : ¬ s.idx < s.stop := by simp at e2; omega
+      have e : (hostBytesCo xs0).back s = ⟨none, s, []⟩ := by simp [hostBytesCo, hc]
+      rw [e]
+      exact ⟨rfl, pre, post, e0, e1, e2⟩
+    · have hc : s.idx < s.stop := by simp at e2; omega
+      have hx : xs0[s.stop - 1]? = some l := by
+        have h1 : s.stop - 1 = (pre ++ ini).length := by simp at e2 ⊢; omega
+        have h2 : pre ++ (ini ++ [l]) ++ post = (pre ++ ini) ++ l :: post := by simp
+        rw [e0, h1, h2]; exact getElem?_mid _ _ _
+      have e : (hostBytesCo xs0).back s = ⟨some l, ⟨s.idx, s.stop - 1⟩, []⟩ := by simp [hostBytesCo, hc, hx]
+      rw [e]
+      refine ⟨by simp, pre, l :: post, ?_, e1, ?_⟩
+      · simp [e0]
+      · simp at e2 ⊢; omega
+
+theorem hostBytes_deq (xs : List Val) : Deq (hostBytesCo xs) ⟨0, xs.length⟩ xs :=
+  hostBytes_deq_gen xs ⟨0, xs.length⟩ xs ⟨[], [], by simp, rfl, by simp⟩
+
 theorem metab_deq_gen (k : Nat) (xs0 : List Val) : ∀ (s : Idx) (xs : List Val),
     (∃ pre post, xs0 = pre ++ xs ++ post ∧ pre.length = s.idx ∧ s.stop = pre.length + xs.length) →
     Deq (metabCo k xs0) s xs := by
